@@ -65,6 +65,10 @@ func (c RawConfiguration) QuorumCall(ctx context.Context, d QuorumCallData) (res
 			return resp, QuorumCallError{cause: ctx.Err(), errors: errs, replies: len(replies)}
 		}
 		if len(errs)+len(replies) == expectedReplies {
+			if ctx.Err() != nil {
+				// the context ended (which may be why the remaining nodes failed)
+				return resp, QuorumCallError{cause: ctx.Err(), errors: errs, replies: len(replies)}
+			}
 			return resp, QuorumCallError{cause: Incomplete, errors: errs, replies: len(replies)}
 		}
 	}
